@@ -45,6 +45,9 @@
 #ifndef FREQ_TYPE_HOPP
 #error "slice lacks FREQ_TYPE_HOPP"
 #endif
+/* the flag values as numbers: the driver's own expressions must not depend on how the header spells the macros
+ * (an unparenthesised `1 << n` would change the meaning of `~FREQ_TYPE_x` here as well) */
+enum { T_SERV = (FREQ_TYPE_SERV), T_HOPP = (FREQ_TYPE_HOPP) };
 
 enum { K_EVALS, K_NONTRIV, K_EINVAL, K_EMPTY_BITMAP, K_STOP_BEYOND, K_FULL64, K_ARFCN0_SEL, K_MAXLEN,
        K_NVIOL, K_DUMPED, K_LIST_TOTAL, K_CALLS_LEN0, K_NONEMPTY_LIST, K_NCOUNT };
@@ -103,11 +106,11 @@ static void set_ca(const int *arfcn, int n)
 	if (in[0])
 		ca_sorted[nca++] = 0;
 	for (i = 0; i < 1024; i++) {
-		uint8_t noise = (uint8_t)(((uint32_t)i * 2654435761u) >> 13) & (uint8_t)~FREQ_TYPE_SERV;
-		base[0][i] = in[i] ? FREQ_TYPE_SERV : 0;
-		base[1][i] = (in[i] ? FREQ_TYPE_SERV : 0) | noise;
-		base_nohopp[0][i] = base[0][i] & (uint8_t)~FREQ_TYPE_HOPP;
-		base_nohopp[1][i] = base[1][i] & (uint8_t)~FREQ_TYPE_HOPP;
+		uint8_t noise = (uint8_t)(((uint32_t)i * 2654435761u) >> 13) & (uint8_t)~T_SERV;
+		base[0][i] = in[i] ? T_SERV : 0;
+		base[1][i] = (in[i] ? T_SERV : 0) | noise;
+		base_nohopp[0][i] = base[0][i] & (uint8_t)~T_HOPP;
+		base_nohopp[1][i] = base[1][i] & (uint8_t)~T_HOPP;
 	}
 }
 
@@ -241,7 +244,7 @@ NOSAN static void run_case(uint64_t idx, int len, const uint8_t *ma, int si4, in
 			static uint8_t exp[1024];
 			memcpy(exp, si4 ? base_nohopp[bg] : base[bg], 1024);
 			if (si4)
-				for (i = 0; i < nwant; i++) exp[want[i]] |= FREQ_TYPE_HOPP;
+				for (i = 0; i < nwant; i++) exp[want[i]] |= T_HOPP;
 			if (memcmp(freq, exp, 1024)) {
 				for (i = 0; i < 1024; i++) if (((uint8_t *)freq)[i] != exp[i]) break;
 				snprintf(extra, sizeof(extra), "freq[%d].mask=0x%02x want=0x%02x (before 0x%02x)",
@@ -257,8 +260,8 @@ NOSAN static void run_case(uint64_t idx, int len, const uint8_t *ma, int si4, in
 		int touched = 0;
 		for (i = 0; i < 1024; i++) {
 			uint8_t m = ((uint8_t *)freq)[i];
-			if (m & FREQ_TYPE_HOPP) hoppsum += i + 1;
-			othersum = othersum * 31u + (uint8_t)((m ^ base[bg][i]) & (uint8_t)~FREQ_TYPE_HOPP);
+			if (m & T_HOPP) hoppsum += i + 1;
+			othersum = othersum * 31u + (uint8_t)((m ^ base[bg][i]) & (uint8_t)~T_HOPP);
 			if (m != base[bg][i]) touched = 1;
 		}
 		for (i = 0; i < 64; i++) if (hopping[i] != 0xA5A5) touched = 1;
